@@ -66,6 +66,13 @@ CLAIMED.update({
             "Model oracle over simulated end-to-end runs; layouts x time patterns x containers sampled; known findings F-C08b / F-C08c attributed by signature."),
 })
 
+CLAIMED.update({
+    "C09": ("exploration", "3 C09", TECH + "independent reader `journalctl --file -o export` (binary-safe export parsed): entry order, receive times and field sets vs s4's ten renderings split on a separator marker; windows on exact microsecond receive times; all containers",
+            "Oracle = independent reader over shipped inputs; renderings, windows, zones, containers sampled."),
+    "C10": ("exploration", "3 C10", TECH + "independent dump with the evtx crate (/verif/aux) gives (enumeration index, record id, creation time); expected = stable time sort + inclusive window; record ids parsed from s4's separator-split output; bounds placed inside the out-of-order region",
+            "Oracle = independent dump over shipped inputs; windows and containers sampled."),
+})
+
 NOT_APPLICABLE = {
     "C04": "pure function from (line bytes, pattern table, fallback zone) to an instant: no schedule, clock, fault or interleaving to simulate (DESIGN section 5)",
     "C16": "pure terminating recursion on a file-name string: no I/O, time or concurrency to simulate (DESIGN section 5)",
